@@ -9,9 +9,12 @@ import (
 	"github.com/taskctl/taskctl/pkg/task"
 )
 
-var c18Kinds = []string{"task:t1", "task:nosuch", "pipeline:p1", "pipeline:p2", "pipeline:nosuchp"}
-var c18TaskOf = []string{"t1", "nosuch", "", "", ""}
-var c18PipeOf = []string{"", "", "p1", "p2", "nosuchp"}
+// kinds 5-7 put a name of the other kind under the key (a task key naming a pipeline, a pipeline key
+// naming a task): dangling; kinds 8-9 set both keys: the task is what the stage runs, nothing is included
+var c18Kinds = []string{"task:t1", "task:nosuch", "pipeline:p1", "pipeline:p2", "pipeline:nosuchp", "task:p1", "task:p2", "pipeline:t1", "task:t1+pipeline:p1", "task:t1+pipeline:p2"}
+var c18TaskOf = []string{"t1", "nosuch", "", "", "", "p1", "p2", "", "t1", "t1"}
+var c18PipeOf = []string{"", "", "p1", "p2", "nosuchp", "", "", "t1", "p1", "p2"}
+var c18DefName = []string{"t1", "nosuch", "p1", "p2", "nosuchp", "p1", "p2", "t1", "p1", "p2"}
 var c18Names = []string{"", "x", "y"}
 var c18Deps = []string{"x", "y", "t1", "p2", "zz"}
 var c18Digits = []string{"0", "1", "2"}
@@ -45,7 +48,7 @@ func c18MkStage(id string) (*stageDefinition, *c18Stage) {
 		def.DependsOn = []string{c18Deps[s.dep]}
 	}
 	// effective stage name: explicit, else the task / pipeline name
-	s.effName = rt.IteStr(s.name != 0, c18Names[s.name], rt.IteStr(s.kind < 2, c18TaskOf[s.kind], c18PipeOf[s.kind]))
+	s.effName = rt.IteStr(s.name != 0, c18Names[s.name], c18DefName[s.kind])
 	return def, s
 }
 
@@ -65,7 +68,7 @@ func VerifC18(run int) {
 	cfg, err := buildFromDefinition(def, &loaderContext{Dir: "/proj"})
 
 	// ---- reference: is the definition well-formed? ----
-	refOK := func(s *c18Stage) bool { return rt.Or(s.kind == 0, s.kind == 2, s.kind == 3) }
+	refOK := func(s *c18Stage) bool { return rt.Or(s.kind == 0, s.kind == 2, s.kind == 3, s.kind == 8, s.kind == 9) }
 	depIn := func(s *c18Stage, others ...*c18Stage) bool {
 		ok := false
 		for _, o := range others {
